@@ -1,6 +1,7 @@
 import Lemmas
 import Props.C19
 import Lemmas.Restore
+import Lemmas.RestoreB
 import Lemmas.SimOS
 /-!
 # C01 — Rollback restores the base filesystem exactly
@@ -23,7 +24,8 @@ What is *not* covered by this theorem (hence `_partial`), and is decided by the 
 snapshot oracle instead: trees containing symlinks and the `Symlink` operation (five of the open
 findings live there), relative names (K-relative-name), Rename of a non-empty directory
 (K-rename-nonempty-dir), Remove/RemoveAll of the root itself, ForceBackup (C17), the HiddenFS-nested
-layering (C04), and "Rollback returns nil" (C09 proves it returns nil only if every step succeeded).
+layering (C04).  "Rollback returns nil" is `rollback_returns_nil_linkfree_partial` below (healthy
+filesystems, backup root empty at the start; proof in Lemmas/InvB…RestoreB.lean).
 -/
 namespace Props.C01
 open BFS BFS.BackupFS
@@ -69,6 +71,20 @@ theorem invariant_after_history (bk kk : Key) (hbk : PKey bk) (hkk : PKey kk)
     (hcov : CoveredHist (osCfg bk kk) (osSim bk kk hbk hkk hne1 hne2 hd1 hd2) w ops) :
     Inv (osSim bk kk hbk hkk hne1 hne2 hd1 hd2) (osView bk kk .base w.fs) (runOps (osCfg bk kk) w ops) :=
   (history_keeps ops w (Inv.init (S := osSim bk kk hbk hkk hne1 hne2 hd1 hd2) hg hinfos) hcov).inv
+
+/-- T01.nil  "Rollback returns nil" — link-free fragment, healthy filesystems, backup root empty
+at the start: the Rollback ending each of any number of consecutive transactions reports no error
+(and leaves the backup as it was: `Props.C07.backup_clean_after_rollback_linkfree_partial`). -/
+theorem rollback_returns_nil_linkfree_partial (bk kk : Key) (hbk : PKey bk) (hkk : PKey kk)
+    (hne1 : bk ≠ []) (hne2 : kk ≠ []) (hd1 : ¬ bk <+: kk) (hd2 : ¬ kk <+: bk)
+    (w : World) (hg : OSGood bk kk w.fs) (hinfos : w.infos = []) (hnf : w.faults = [])
+    (hempty : ∀ k, k ≠ [] → w.fs.get (kk ++ k) = none)
+    (txs : List (List Op))
+    (hcov : CoveredTxs (osCfg bk kk) (osSim bk kk hbk hkk hne1 hne2 hd1 hd2) w txs) :
+    ∀ pre ops post, txs = pre ++ ops :: post →
+      (rollback (osCfg bk kk) (runOps (osCfg bk kk) (pre.foldl (runTx (osCfg bk kk)) w) ops)).2 = .ok false :=
+  (txs_clean (S := osSim bk kk hbk hkk hne1 hne2 hd1 hd2) txs w hg hinfos hnf
+    (fun k hk => by show (w.fs.get (kk ++ k)).map eraseMt = none; rw [hempty k hk]; rfl) hcov).2
 
 /-- non-vacuity: the hypotheses hold of an ordinary disk (`/b` with a file and a directory, backup
 root `/k`) and a history that creates, overwrites, removes, makes directories and changes metadata
